@@ -287,7 +287,9 @@ DYN_TAGS = ['{field.memo}', '{source}', '{extract("REF:(\\\\d+)")}', '{label}', 
             # parentheses / commas inside a string literal of the expression are text, not tag-list syntax
             '{split(description, "(", 0)}', '{"big,spender" if amount > 100 else "small)"}', '{split(field.code, ")", 0)}',
             # a tag that looks its value up in a supplemental source (only meaningful where the check supplies rows / orders)
-            '{next((r.item for r in orders if r.qty > 0), "none")}', '{next((r.item for r in rows if r.amt == amount), "no-row")}']
+            '{next((r.item for r in orders if r.qty > 0), "none")}', '{next((r.item for r in rows if r.amt == amount), "no-row")}',
+            # numbers as tag values (1 is a number like any other: January, the 1st, a 1.00 payment)
+            '{month}', '{day}', '{year}', '{round(amount)}', '{len(description)}']
 TRANSFORMS = [
     ('field.description', 'regex_replace(field.description, "^SQ \\\\*", "")'),
     ('field.description', 'strip_prefix(field.description, "UBER ")'),
@@ -555,5 +557,6 @@ def gen_csv_rules(rnd, n=None):
                 for _ in range(rnd.choice([0, 0, 1, 2]))]
         if not cat and not tags:
             tags = ['flag']
-        out.append(CsvRule(rnd.choice(CSV_PATTERNS), mods, ('M%d %s' % (i, rnd.choice(['Netflix', 'Uber', 'Shop']))) if rnd.random() > .06 else '', cat, sub, tags))
+        # (a Pattern cell that consists of modifiers only - `[amount>500]`, `[month=12]` - is a rule about every description)
+        out.append(CsvRule('' if (mods and rnd.random() < .08) else rnd.choice(CSV_PATTERNS), mods, ('M%d %s' % (i, rnd.choice(['Netflix', 'Uber', 'Shop']))) if rnd.random() > .06 else '', cat, sub, tags))
     return out
